@@ -173,3 +173,7 @@ def check(chk):
     so = src(ot)
     chk.judge('len(self._connection.orphaned_request_ids) >= self._connection.orphaned_threshold' in so and 'self._connection.orphaned_threshold_reached = True' in so,
               'C13.replace', ot, 'orphaning past the threshold marks the connection for replacement', 'threshold marking changed')
+
+    # a trashed connection whose last live request ends by a client timeout is re-examined because _on_timeout always returns it to its pool
+    chk.rule('C13.recheck', 'every way a request leaves a connection (answer, timeout) reaches the pool\'s return_connection, which closes a drained trashed connection')
+    chk.borrow('C09', {'C09.orphan': 'C13.recheck'}, 'the pool is not told about the orphaned stream, so a trashed connection that has only orphans left is never closed')
